@@ -9,6 +9,9 @@ package main
 //	         same instant is rejected by the per-second rate; rejected requests debit nothing, so the hour budget is
 //	         still 49: the next 49 requests, one per second, are admitted and the 50th is rejected (C03: the hour bound).
 //
+//	E (C03)  a tracked source with 1999 tokens left sends 16 x 250 requests at one instant from 16 goroutines: exactly 1999
+//	         are admitted.
+//
 //	D (C14)  capacity 1 and a slow rate lookup: source A is tracked and out of tokens; a second request of A is slow in the
 //	         rate extractor while the first request of B arrives. Each request takes effect at one instant, so the four
 //	         answers (A2, B1, then B2, A3 one after the other) are those of the order A2,B1 (429 200 429 200: B evicts A)
@@ -93,7 +96,7 @@ func one(tl http.Handler, source string) int {
 func main() {
 	rounds := flag.Int("rounds", 300, "rounds per scenario")
 	g := flag.Int("g", 8, "goroutines")
-	only := flag.String("only", "", "run only this scenario (A, B, C or D)")
+	only := flag.String("only", "", "run only this scenario (A, B, C, D or E)")
 	flag.Parse()
 	skip := func(name string) bool { return *only != "" && *only != name }
 	extract := utils.ExtractorFunc(func(r *http.Request) (string, int64, error) { return r.Header.Get("X-Source"), 1, nil })
@@ -241,6 +244,27 @@ func main() {
 			s := fmt.Sprint(got)
 			if s != "[429 200 429 200]" && s != "[200 200 200 200]" {
 				fail("C14", "D round %d: capacity 1, rate 1/h burst 1, frozen clock; A was admitted once; then a request of A (slow in the rate extractor) and the first request of B ran together, then B, then A one after the other: answers %s (A2 B1 B2 A3); the sequential histories give [429 200 429 200] (A2 before B1) or [200 200 200 200] (B1 before A2): a source that had been forgotten kept its old bucket, or a tracked one was forgotten out of turn", round, s)
+			}
+		}
+	}
+	// E (C03): one tracked source, many of its requests at one instant from many goroutines: exactly `burst` are admitted
+	// (every admission debits the bucket it tested, as one step)
+	if !skip("E") {
+		rates := ratelimit.NewRateSet()
+		_ = rates.Add(time.Hour, 1, 2000)
+		tl, err := ratelimit.New(ok, extract, rates, ratelimit.Capacity(1<<20))
+		if err != nil {
+			panic(err)
+		}
+		for round := 0; round < *rounds/6+5 && atomic.LoadInt32(&failures) < 3; round++ {
+			src := fmt.Sprintf("e%d", round)
+			if c := one(tl, src); c != http.StatusOK {
+				fail("C03", "E round %d: the first request of a new source was answered %d", round, c)
+				continue
+			}
+			adm, rej, oth := together(tl, src, 2**g, 250)
+			if adm != 1999 || oth != 0 {
+				fail("C03", "E round %d: rate 1/h burst 2000, one request admitted before; %d goroutines x 250 requests of the source at one instant: %d admitted, %d rejected, %d other; exactly 1999 tokens were left", round, 2**g, adm, rej, oth)
 			}
 		}
 	}
